@@ -2,7 +2,7 @@
 //@ about: naming the sealing trait from outside
 use happylock::Mutex;
 struct Fake;
-impl happylock::key::sealed::Sealed for Fake {} //~ ERROR E0603
+impl happylock::@{sealed:Keyable} for Fake {} //~ ERROR E0603
 fn main() {
     let m = Mutex::new(0);
     let _ = (&m, Fake);
